@@ -68,7 +68,13 @@ func checkC03(c c03Case) verdict {
 		labels = append(labels, "via-exported-default")
 	}
 	disturb(c.Before, secret)
-	got, err := otp.ValidateHOTP(secret, string(c.Code), c.Counter, param)
+	var got bool
+	var err error
+	// a validation that never returns (a window walked by goroutines that wait for each other, a loop that does not end) is
+	// not a verdict: watchdog as in C04 (10 s, then 20 s once more; the normal cost is microseconds)
+	if !bounded(func() { got, err = otp.ValidateHOTP(secret, string(c.Code), c.Counter, param) }, 10*time.Second) {
+		hang("C03", "main", c, recorders["C03/main"], fmt.Sprintf("ValidateHOTP(counter=%d, window=%d, digits=%d, code %q) did not return within 10 s and again within 20 s", c.Counter, skew, digits, c.Code))
+	}
 	supported := digits >= 1 && digits <= 10 && algo >= 0 && algo <= 2
 	if skew > 10 {
 		labels = append(labels, "refused-skew")
